@@ -81,6 +81,7 @@ def run(chk: Check):
     chk.proof_stage(PROP_FILE)
     n_hp = 120 if chk.tier == "quick" else 2000
     history = []
+    calls_log = []   # (length, lambda) of every hp_filter call made so far in this process: the filter must not depend on them
     held = []        # (object, its bytes when it was returned / handed over, what it is): results a caller still holds while it goes on filtering
     prev = None
     for it in range(n_hp):
@@ -98,9 +99,16 @@ def run(chk: Check):
         case = {"case": {"kind": "hp", "n": n, "shape": shape, "lambda": lam}}
         y_in = y if shape == "previous_trend" else y.copy()
         y = y.copy()
-        with warnings.catch_warnings():
-            warnings.simplefilter("ignore")
-            cycle, trend = hp_filter(y_in, lam)
+        case["case"]["earlier_calls_n_lambda"] = list(calls_log[-12:])
+        calls_log.append((n, lam))
+        try:
+            with warnings.catch_warnings():
+                warnings.simplefilter("ignore")
+                cycle, trend = hp_filter(y_in, lam)
+        except Exception as e:  # noqa: BLE001  (no cycle and trend at all on an admissible input: the property fails on this input)
+            chk.fail(f"hp_filter raised {type(e).__name__}: {str(e)[:80]} on a finite series of length {n} >= 3 with lambda {lam!r} > 0 "
+                     f"(lengths and lambdas of the calls made before in this process: {calls_log[-7:-1]})", case)
+            continue
         if y_in.tobytes() != y.tobytes():
             chk.fail("hp_filter modified the series it was given", case)
         for obj, snap, what in held:
@@ -124,9 +132,13 @@ def run(chk: Check):
             chk.fail(f"trend violates the HP optimality condition (I + lambda K'K) trend = y: residual {float(res)!r} for max|y| {scale!r}, lambda {lam!r}", case)
     # no dependence on earlier calls: the same (series, lambda) filtered again after all the calls above gives the same bits
     for y, lam, cb, tb, case in history:
-        with warnings.catch_warnings():
-            warnings.simplefilter("ignore")
-            c2, t2 = hp_filter(y.copy(), lam)
+        try:
+            with warnings.catch_warnings():
+                warnings.simplefilter("ignore")
+                c2, t2 = hp_filter(y.copy(), lam)
+        except Exception as e:  # noqa: BLE001
+            chk.fail(f"hp_filter depends on earlier calls: the same series (length {len(y)}) and lambda {lam!r} that were filtered before now raise {type(e).__name__}: {str(e)[:80]}", case)
+            continue
         chk.count("hp:repeat_after_other_calls")
         if c2.tobytes() != cb or t2.tobytes() != tb:
             chk.fail(f"hp_filter depends on earlier calls: the same series and lambda give a different result when filtered again (max diff {float(np.max(np.abs(t2 - np.frombuffer(tb)))):.3g})", case)
@@ -135,9 +147,13 @@ def run(chk: Check):
         n = rng.randint(3, 40)
         y = np.array([rng.randint(-64, 64) / 8.0 for _ in range(n)])
         lam = float(2.0 ** rng.randint(-6, 12))
-        with warnings.catch_warnings():
-            warnings.simplefilter("ignore")
-            cycle, trend = hp_filter(y.copy(), lam)
+        try:
+            with warnings.catch_warnings():
+                warnings.simplefilter("ignore")
+                cycle, trend = hp_filter(y.copy(), lam)
+        except Exception as e:  # noqa: BLE001
+            chk.fail(f"hp_filter raised {type(e).__name__}: {str(e)[:80]} on a dyadic series of length {n} with lambda {lam}", {"case": {"kind": "hp_exact", "n": n, "lambda": lam, "y": y.tolist()}})
+            continue
         if not np.all(np.isfinite(trend)):
             chk.fail(f"hp_filter returned non-finite values on a finite series (n={n}, lambda={lam})", {"case": {"kind": "hp_exact", "n": n, "lambda": lam, "y": y.tolist()}})
             continue
@@ -166,11 +182,17 @@ def run(chk: Check):
             y = np.exp(gen_series(rng, n, "walk") * 0.05) * rng.choice([10.0, 100.0, 1000.0])
             y = (np.round(np.clip(y, 1.0, 1e6) * rng.choice([1, 7, 100])) + 1).astype([np.int64, np.int32, np.float32][(it // 5) % 3])
             chk.count("filters:dtype:" + str(y.dtype))
-        with warnings.catch_warnings():
-            warnings.simplefilter("ignore")
-            a = hp_cycle_lamb1600_filter(y.copy()); a_ref = hp_filter(y.copy(), 1600)[0]
-            b = log_and_hp_filter(y.copy()); b_ref = np.log(y) - hp_filter(np.log(y), 1600)[1]
-            c = diff_log_demean_filter(y.copy())
+        try:
+            with warnings.catch_warnings():
+                warnings.simplefilter("ignore")
+                a = hp_cycle_lamb1600_filter(y.copy()); a_ref = hp_filter(y.copy(), 1600)[0]
+                b = log_and_hp_filter(y.copy()); b_ref = np.log(y) - hp_filter(np.log(y), 1600)[1]
+                c = diff_log_demean_filter(y.copy())
+        except Exception as e:  # noqa: BLE001
+            if np.all(np.isfinite(y)) and np.all(y > 0):
+                chk.fail(f"a time-series filter raised {type(e).__name__}: {str(e)[:80]} on a finite positive series of length {n} (dtype {y.dtype})",
+                         {"case": {"kind": "filters", "n": n, "dtype": str(y.dtype), "head": y[:6].tolist()}})
+            continue
         lg = np.log(y.astype(np.float64))
         if not (np.all(np.isfinite(y)) and np.all(y > 0)):
             continue      # outside the quantifier (finite positive series); the generator clips, this is a guard
